@@ -29,8 +29,15 @@ def run(tier):
         if ex:
             pre += " and c not in (%s,)" % ", ".join(map(str, ex))
         conds.append(chrun.Condition("C08:stmt:%s" % hn, [("h", "int"), ("c", "int"), ("cfgi", "int")], pre, "    return c08k.k_stmt(h, c, cfgi)"))
+    nbase = len(K.EXPR_BASE)
+    if tier == "quick":
+        # bare constructs everywhere + a seed-rotated twelfth of the nested (wrapped) constructs
+        sd = common.seed()
+        csel = [c for c in range(len(K.EXPR_CONSTRUCTS)) if c < nbase or (c + sd) % 12 == 0]
+    else:
+        csel = list(range(len(K.EXPR_CONSTRUCTS)))
     for h, (hn, _) in enumerate(K.EXPR_HOSTS):
-        conds.append(chrun.Condition("C08:expr:%s" % hn, [("h", "int"), ("c", "int"), ("cfgi", "int")], "h == %d and 0 <= c < %d and 0 <= cfgi < 2" % (h, len(K.EXPR_CONSTRUCTS)), "    return c08k.k_expr(h, c, cfgi)"))
+        conds.append(chrun.Condition("C08:expr:%s" % hn, [("h", "int"), ("c", "int"), ("cfgi", "int")], "h == %d and c in (%s,) and 0 <= cfgi < 2" % (h, ", ".join(map(str, csel))), "    return c08k.k_expr(h, c, cfgi)"))
     conds.append(chrun.Condition("C08:illegal", [("i", "int"), ("cfgi", "int")], "0 <= i < %d and 0 <= cfgi < 2" % len(K.ILLEGAL), "    return c08k.k_illegal(i, cfgi)"))
     conds.append(chrun.Condition("C08:legal_near_misses", [("i", "int"), ("cfgi", "int")], "0 <= i < %d and 0 <= cfgi < 2" % len(K.LEGAL_NEAR_MISSES), "    return c08k.k_legal(i, cfgi)"))
     with common.Workdir("c08") as wd:
@@ -61,7 +68,7 @@ def run(tier):
             rep.known("%s: %s (%d listed cells still fail)" % (e["id"], e["what"], len(still)))
         else:
             rep.note("known finding %s: no listed cell fails any more" % e["id"])
-    ncells = 2 * (len(K.STMT_HOSTS) * len(K.STMT_CONSTRUCTS) + len(K.EXPR_HOSTS) * len(K.EXPR_CONSTRUCTS) + len(K.ILLEGAL) + len(K.LEGAL_NEAR_MISSES))
+    ncells = 2 * (len(K.STMT_HOSTS) * len(K.STMT_CONSTRUCTS) + len(K.EXPR_HOSTS) * len(csel) + len(K.ILLEGAL) + len(K.LEGAL_NEAR_MISSES))
     cov = rep.coverage
     cov["explanation"] = "E1 selector slices over the real convert_code_string: (host position x unsupported construct x configuration) cells; every path is concrete after the selectors are picked, the solver's role is the exhaustiveness certificate of each slice. For programs that parse but that CPython refuses to compile (illegal placements), the oracle is CPython's own compile(). Legal near-misses must be accepted."
     cov["obligations"] = len(conds)
@@ -73,7 +80,7 @@ def run(tier):
     cov["rule"] = "cell = (host, construct, configuration); distinct = (host, construct)"
     cov["samples"] = [{"host": K.STMT_HOSTS[3][0], "construct": K.STMT_CONSTRUCTS[6][0], "source": K.build(K.STMT_HOSTS[3][1], K.STMT_CONSTRUCTS[6][1])}, {"host": K.EXPR_HOSTS[10][0], "construct": K.EXPR_CONSTRUCTS[0][0], "source": K.wrap_in_function(K.build_expr(K.EXPR_HOSTS[10][1], K.EXPR_CONSTRUCTS[0][1]), False)}, {"illegal": K.ILLEGAL[5][0], "source": K.ILLEGAL[5][1]}]
     cov["hosts"] = {"statement": [h for h, _ in K.STMT_HOSTS], "expression": [h for h, _ in K.EXPR_HOSTS]}
-    cov["constructs"] = {"statement": [c for c, _ in K.STMT_CONSTRUCTS], "expression": [c for c, _ in K.EXPR_CONSTRUCTS], "illegal": [c for c, _ in K.ILLEGAL]}
+    cov["constructs"] = {"statement": [c for c, _ in K.STMT_CONSTRUCTS], "expression_base": [c for c, _ in K.EXPR_BASE], "expression_wrappers": [w for w, _ in K.EXPR_WRAPS], "expression_constructs_total": len(K.EXPR_CONSTRUCTS), "expression_constructs_in_this_run": len(csel), "illegal": [c for c, _ in K.ILLEGAL]}
     cov["solver_cpu_s"] = st["solver_cpu_s"]
     cov["functions_encoded"] = ["oneliner.convert_code_string", "oneliner.convert.convert (dispatch table ast2pending)", "oneliner.pending_nodes (PendingBreak/Continue/Return placement checks, assign_tuple_list star check, _iter_branch)", "oneliner.expr_transform.ExpressionTransformer.get_pending (yield/await refusal)"]
     rep.assumptions += ["inductive reading: the dispatcher refuses every statement kind outside the table, every compound statement forwards every child statement, every expression goes through the expression transformer; the slices check each of these links at every host position of the catalogue", "README.md 'Limitations' is the list of unsupported constructs"]
